@@ -162,6 +162,46 @@ def big_ref_definitions(tier):
     return defs
 
 
+def huge_ref_definitions(tier):
+    """more than 32 units (the size up to which this toolchain's unstable sort still behaves stably), ties at many
+    scales including ties with the reference unit declared before AND after it, in scrambled declaration orders"""
+    lits = ["1000", "0.5", "250", "0.001", "1", "1e6", "0.25", "500", "2.5", "1000.", "0.125", "64", "1000000", "0.5", "8", "0.04", "3",
+            "1e3", "0.25", "7.5", "0.001", "1.0", "12", "500.", "0.02", "2", "1e-3", "250", "0.75", "16", "1000000.", "0.2", "4",
+            "0.0625", "36", "9", "0.3", "1.00", "5", "0.5", "1", "64.0", "2.50"]
+    n = len(lits)
+    orders = [list(range(n + 1)), list(range(n, -1, -1)), [(i * 13) % (n + 1) for i in range(n + 1)]]
+    if tier == "thorough":
+        orders += [[(i * 5 + 3) % (n + 1) for i in range(n + 1)], list(range(20, n + 1)) + list(range(20))]
+    defs = []
+    for order in orders:
+        assert sorted(order) == list(range(n + 1))
+        us = [unit("Unit_%s%sx" % (chr(65 + i // 13), chr(97 + i % 13)), "u%s%s" % (chr(97 + i // 13), chr(97 + i % 13)), lit) for i, lit in enumerate(lits)]
+        defs.append({"kind": "ref", "ref": unit("Ref_Unit", SYMS[0]), "units": us, "order": order, "doc_pos": None, "combo": ("huge",) + tuple(lits)})
+    return defs
+
+
+LONG_LITS = ["0.017453292519943296", "0.514444444444444444", "0.30000000000000004", "0.000030517578125", "3.141592653589793238",
+             "1234567.890123456789", "9007199254740993", "9007199254740993.0"]
+
+
+def long_literal_definitions(tier):
+    """scale literals with more significant digits than f64 holds (up to the 18 fractional digits of the Decimal
+    back-end): the scale must be the literal's exact value IN THE AMOUNT TYPE.  `loose` tells the judge that sums
+    and quotients over such scales are rounded by the amount type (only metadata is compared exactly)."""
+    defs = []
+    for lit in LONG_LITS:
+        for perm in ((0, 1, 2, 3), (3, 1, 0, 2)):
+            us = [unit("Unit_Ax", SYMS[1], lit), unit("Unit_Bx", SYMS[2], "1000"), unit("Unit_Cx", SYMS[3], "0.5")]
+            defs.append({"kind": "ref", "ref": unit("Ref_Unit", SYMS[0]), "units": us, "order": list(perm), "doc_pos": None,
+                         "combo": ("long", lit), "loose": True})
+    for k in range(0, len(LONG_LITS) - 2, 2 if tier == "quick" else 1):
+        combo = LONG_LITS[k:k + 3]
+        us = [unit("Unit_%sx" % "ABC"[i], SYMS[i + 1], lit) for i, lit in enumerate(combo)]
+        defs.append({"kind": "ref", "ref": unit("Ref_Unit", SYMS[0]), "units": us, "order": [2, 0, 3, 1], "doc_pos": None,
+                     "combo": ("long",) + tuple(combo), "loose": True})
+    return defs
+
+
 def tiny_ref_definitions(tier):
     """scales closer together than f64::EPSILON, in every declaration order (an ordering that compares with a
     tolerance would treat them as ties)"""
